@@ -108,7 +108,8 @@ class C10(Check):
                   "answers each Select they yield. What the ~50 decoders do with garbage is NOT modelled: it is observed, fed to the model as a table, and checked by the oracle "
                   "(window independence, exceptions contained).")
     trusted_base = ["model Model/Framing.lean (ctlLoop/swLoop) hand-written; tied by this correspondence run", "answering the Select operations that the two real I/O loop generators yield (the harness plays the select hub)"]
-    assumptions = ["select is level-triggered: a connection whose bytes were not read in a round (the controller loop abandons the rest of a round when one read raises) is reported readable again; the model's serveRound is the round together with those completions",
+    assumptions = ["select is level-triggered: a connection whose bytes were not read in a round (the controller loop abandons the rest of a round when one read raises) is reported readable again; the model's ctlRound/ctlRounds are the pass and its repetitions (theorem ctl_round_completes: together they are serveRound)",
+                   "the listening socket is outside the model: an exception while ACCEPTING a connection ends the controller's I/O loop for all connections (not reachable by bytes on an established connection)",
                    "message handlers that disconnect the connection in the middle of a read are covered by ctl_disconnect_stops / ctl_disconnect_persists and the `disc` cases; what a handler does beyond raising or disconnecting is outside the model",
                    "a message handler that RAISES is caught by both read loops (cases `hraise`); in the model handlers do not exist, so a raising handler and a returning one are the same step; a failure inside OFConnection._error_handler itself is not modelled",
                    "sw_contained (no branch of swLoop yields `dead`) and siblings_untouched (feedAt is List.set) hold by construction of the model; that the real loops behave like it is what every run tests by driving the real RecocoIOLoop.run / OpenFlow_01_Task.run generators with three connections",
